@@ -1,6 +1,7 @@
 package tlog
 
 import (
+	"bytes"
 	"io"
 
 	"github.com/bluenviron/gomavlib/v3/pkg/dialect"
@@ -21,6 +22,7 @@ type Writer struct {
 	// private
 	//
 
+	buf         bytes.Buffer
 	frameWriter *frame.Writer
 }
 
@@ -34,6 +36,9 @@ func (w *Writer) Initialize() error {
 	if err != nil {
 		return err
 	}
+
+	// frames are encoded into a buffer and written together with their timestamp.
+	w.frameWriter.ByteWriter = &w.buf
 
 	return nil
 }
@@ -51,15 +56,16 @@ func (w *Writer) Write(entry *Entry) error {
 		byte(epoch >> 8),
 		byte(epoch),
 	}
-	_, err := w.ByteWriter.Write(buf)
+	// encode the whole entry first, in order not to leave a partial entry
+	// in the log when the frame cannot be encoded.
+	w.buf.Reset()
+	w.buf.Write(buf)
+
+	err := w.frameWriter.Write(entry.Frame)
 	if err != nil {
 		return err
 	}
 
-	err = w.frameWriter.Write(entry.Frame)
-	if err != nil {
-		return err
-	}
-
-	return nil
+	_, err = w.ByteWriter.Write(w.buf.Bytes())
+	return err
 }
